@@ -8,17 +8,17 @@
 package simrt
 
 import (
-	"os"
-	"unsafe"
 	"cmp"
 	"fmt"
 	"math/rand/v2"
+	"os"
 	"runtime"
 	"sort"
 	"strings"
 	"sync"
 	"sync/atomic"
 	"time"
+	"unsafe"
 )
 
 type gstate int
@@ -35,16 +35,16 @@ const (
 
 // G is one simulated goroutine.
 type G struct {
-	ID    int
-	Name  string
-	state gstate
-	site  string
-	wake  chan struct{}
-	wg    *sync.WaitGroup // when gWgWait
-	prio  int             // PCT priority
-	idleFor time.Duration // AwaitQuiescence: required idle time
-	goid  uint64
-	vc    vclock // happens-before clock (race tracking only)
+	ID      int
+	Name    string
+	state   gstate
+	site    string
+	wake    chan struct{}
+	wg      *sync.WaitGroup // when gWgWait
+	prio    int             // PCT priority
+	idleFor time.Duration   // AwaitQuiescence: required idle time
+	goid    uint64
+	vc      vclock // happens-before clock (race tracking only)
 }
 
 // Choice is one recorded decision.
@@ -66,7 +66,7 @@ type Config struct {
 	MaxSteps   int
 	IdleBound  time.Duration // simulated idle time after which the run counts as quiescent
 	KeepLabels bool
-	MaxAdvIdx  int // number of clock-advance ladder entries usable while goroutines are runnable (0 = all)
+	MaxAdvIdx  int  // number of clock-advance ladder entries usable while goroutines are runnable (0 = all)
 	Race       bool // track happens-before and report unordered map accesses (needs a build made with simify -mappkgs)
 }
 
@@ -83,11 +83,11 @@ type Stats struct {
 	Switches       int // scheduling steps that changed goroutine
 	NoTryLock      int
 	SimTime        time.Duration
-	Stalled        bool   // clients unfinished but nothing can run
-	StepCap        bool   // MaxSteps reached
-	StallInfo      string // who waits where
-	Leaked         int    // goroutines not finished at end of run
-	WaitersAtEnd   string // goroutines waiting for locks / wait groups when the run ended
+	Stalled        bool     // clients unfinished but nothing can run
+	StepCap        bool     // MaxSteps reached
+	StallInfo      string   // who waits where
+	Leaked         int      // goroutines not finished at end of run
+	WaitersAtEnd   string   // goroutines waiting for locks / wait groups when the run ended
 	MapRaces       []string // pairs of map accesses not ordered by happens-before (race tracking only)
 }
 
